@@ -221,3 +221,41 @@ def make_server_welcome(src):
         and assigns.get("self._apps") == "{}" and assigns.get("self._log_requests") == "blur_usage is None"
     out.append(("census.Server_init.wiring", ok, str(assigns)))
     return out
+
+
+STATE_API = {"prune_all_apps", "prune", "claim_nameplate", "release_nameplate", "open_mailbox", "allocate_nameplate", "add_message",
+             "_add_message", "_add_mailbox", "_touch", "execute", "executescript", "executemany", "commit",
+             "_summarize_nameplate_and_store", "_summarize_mailbox_and_store", "log_client_version", "dump_stats", "free_mailbox"}
+
+
+def event_sources(src):
+    """Every property's induction is over the events 'a handler runs' and 'the sweep runs'.  Code outside the functions
+    under contract that calls the state-changing API or talks to a database would be a further event source (e.g. a
+    prune at start-up): there is none besides database.py's set-up functions and the timer closure of makeService."""
+    from pvc.contract import REGISTRY
+    got = set()
+    for mod, qual, fd in package_functions():
+        if qual in REGISTRY:
+            continue
+        if any(isinstance(n, ast.Call) and isinstance(n.func, ast.Attribute) and n.func.attr in STATE_API for n in ast.walk(fd)):
+            got.add(qual)
+    want = {"database._get_db", "database._initialize_db_connection", "database._initialize_db_schema", "server_tap.makeService"}
+    out = _set_eq("census.event_sources", got, want)
+    # ... and in makeService those calls sit inside the timer closure only
+    fd = src.func("server_tap.makeService")
+    outside = [ast.unparse(n.func) for st in fd.body if not isinstance(st, ast.FunctionDef) for n in ast.walk(st)
+               if isinstance(n, ast.Call) and isinstance(n.func, ast.Attribute) and n.func.attr in STATE_API]
+    out.append(("census.event_sources.makeService_body", not outside, "state-changing calls outside `expire`: %s" % outside))
+    return out
+
+
+def blur_option(src):
+    """C16 (A16): the value of --blur-usage reaches the server as the integer the operator wrote (None when the option
+    is absent); make_server_wiring covers the way from the option dictionary to the Server"""
+    try:
+        fd = src.func("server_tap.Options.opt_blur_usage")
+    except Exception as e:
+        return [("census.blur_option", False, str(e))]
+    body = [st for st in fd.body if not (isinstance(st, ast.Expr) and isinstance(st.value, ast.Constant))]
+    got = [ast.unparse(st).replace("'", '"') for st in body]
+    return [("census.blur_option", got == ['self["blur-usage"] = int(arg)'], "opt_blur_usage body: %s" % got)]
